@@ -243,7 +243,7 @@ def order_preserved(ctx):
     ctx.ob(f, 'for part in executor.map(...): parts.append(part)', ok, 'legacy parts must be collected in submission order (executor.map preserves it)')
 
 
-@rule('C01.e', ['C01'], floor=5)
+@rule('C01.e', ['C01', 'C14'], floor=5)
 def stream_is_read_to_eof_from_its_position(ctx):
     """Non-seekable uploads read the stream until a read returns nothing (a short read is
     not EOF); capability probes do not move the stream; size discovery of a seekable
